@@ -92,6 +92,7 @@ Fixpoint cmp_model (m i : list obs) : bool * bool :=
   match m, i with
   | [], _ => (true, false)
   | OSkip _ :: _, _ => (true, true)
+  | _, OSkip _ :: _ => (true, true)         (* the harness could not record the implementation's result (e.g. an astronomically large int) *)
   | ORet v g :: m', ORet v' g' :: i' => if pv_same v v' && globals_eqb pv_same g g' then cmp_model m' i' else (false, false)
   | OFail e :: _, OFail e' :: _ => (errkind_eqb e e', false)
   | _, _ => (false, false)
@@ -103,6 +104,7 @@ Fixpoint cmp_spec (s i : list obs) : bool * bool :=
   match s, i with
   | [], _ => (true, false)
   | OSkip _ :: _, _ => (true, true)
+  | _, OSkip _ :: _ => (true, true)
   | ORet v g :: s', ORet v' g' :: i' => if pv_pyeq v v' && globals_eqb pv_pyeq g g' then cmp_spec s' i' else (false, false)
   | _, _ => (false, false)
   end.
